@@ -94,6 +94,14 @@ namespace vm {
          add(*tmpl, "make_primary_template");
          add(*sc->make_secondary_template(lx.get_identifier(u8"S"), lx.get_forall(prod, i)), "make_secondary_template");
          add(lx.get_guide_name(*tmpl), "get_guide_name");
+         // redeclarations (not the masters of their declaration sets), of every kind
+         add(*sc->make_var(id, i), "make_var again"); add(*sc->make_field(lx.get_identifier(u8"f"), i), "make_field again");
+         add(*sc->make_bitfield(lx.get_identifier(u8"b"), i), "make_bitfield again");
+         add(*sc->make_typedecl(lx.get_identifier(u8"t"), lx.class_type()), "make_typedecl again");
+         add(*sc->make_alias(lx.get_identifier(u8"a"), lx.false_value()), "make_alias again");
+         add(*sc->make_fundecl(lx.get_identifier(u8"g"), lx.get_function(prod, i)), "make_fundecl again");
+         add(*sc->make_primary_template(lx.get_identifier(u8"T"), lx.get_forall(prod, i)), "make_primary_template again");
+         add(*sc->make_secondary_template(lx.get_identifier(u8"S"), lx.get_forall(prod, i)), "make_secondary_template again");
          if (auto o = (*static_cast<const ipr::Scope*>(sc))[id]; o.is_valid()) add(o.get(), "scope-lookup");
          auto map = lx.make_mapping(*w.unit.global_region(), ipr::Mapping_level{0});
          auto par = map->param(id, i);
